@@ -1,6 +1,7 @@
 """C11 - the TIR wire format round-trips and rejects garbage gracefully."""
 import copy
 import random
+import re
 
 from . import core, terms
 from .staging import env_for_driver
@@ -65,7 +66,7 @@ def check(tier, seed):
                 "wrappers (every node type x child position) in every transaction slot, enumerated by TLC (MC_Wire), plus seeded "
                 "random depth-6 transactions; each is encoded, decoded with the declared version, compared structurally, by "
                 "find_params/find_queries and after identical application. garbage cases: seeded bit flips, truncations, "
-                "splices of valid encodings, nesting bombs and random bytes. non-trivial round trip: the term contains at least "
+                "splices of valid encodings, every length header of an encoding inflated in turn, nesting bombs and random bytes. non-trivial round trip: the term contains at least "
                 "one non-leaf node; distinct = distinct terms / distinct byte strings.")
     rep.assumptions = ["TLC 1.8, Json module", "driver conversion tirj.rs; both sides of a round trip go through the same projection",
                        "strings are generated as valid UTF-8", "an abort (stack overflow) is observed as the death of the driver child"]
@@ -99,6 +100,20 @@ def check(tier, seed):
         j["muts"] = muts_for(rng, k)
         nmut += k
         jobs.append(j)
+    # structure-aware garbage: for three terms per leaf kind, every header of the encoding announces, one at a time, a
+    # length that is not there (2^64-1, 2^62, 2^33); plus two seeded inflations on every other case
+    per_kind = {}
+    for i, tx in enumerate(cases):
+        for kind in set(re.findall(r'"k":"([a-z_0-9]+)"', core.canon(tx))):
+            if per_kind.setdefault(kind, 0) < 3 and not jobs[i].get("inflate_all"):
+                per_kind[kind] += 1
+                jobs[i]["inflate_all"] = True
+    rep.extra["terms_with_every_header_inflated"] = sum(1 for j in jobs if j.get("inflate_all"))
+    for j in jobs:
+        if not j.get("inflate_all"):
+            j["muts"] = j["muts"] + [{"kind": "inflate", "nth": rng.randint(0, 1 << 16), "count": rng.choice([2**64 - 1, 2**62, 2**40, 2**33])}
+                                     for _ in range(2)]
+            nmut += 2
     # hostile inputs, one per case so that an abort is attributed exactly
     base = allc[0]
     hostile = bombs(rng, 100000) + bombs(rng, 5000)[:5]
